@@ -509,6 +509,12 @@ def run(ck):
     from . import C10, C07
     C10.check_localown(ck, prog)
     C07.check_progress(ck, prog)
+    from . import mtcommon
+    mtcommon.check_wait(ck, prog, C07.CFG, "C04-WAIT")
     # a reset that leaves a repeat distance or probability behind lets a crafted (valid) file read outside the window
     from . import C01
     C01.check_reset(ck, prog)
+    # the history index rule of dict_get/dict_repeat (an off-by-one reads buf[-1]) and the fill level
+    from . import C03
+    C03.check_dict_siblings(ck, prog)
+    C03.check_dict_fresh(ck, prog, rule="C04-DICTFRESH")
